@@ -67,8 +67,11 @@ CHECKS["C07"] = dict(
     text="Lifecycle.tla (reader, closer, helper, in-flight operation, NETCONF reader) is checked for NoPanic, CloseReturns, NoLeak, TransportClosed over all 72 matrix cells in one run; the pinned commit's "
          "protocol (v0) is kept in the module and must be rejected (vacuity guard). TLC found the helper-goroutine leak before any test did. The harness drives generic/network/NETCONF sessions into 8 "
          "connection states (idle, EOF, persistent error, data/error/EOF arriving during Close, operation in flight, error already reported), closes once or twice, with 3 transport close behaviours, and "
-         "delays the goroutine reaching yield point b until a was reached; each run is a child process; verdicts come only from observable behaviour.",
-    note="Trusted: TLC; the gate (15 ms bound) as scheduler; runtime.Stack census (a reader stuck in a transport Read that never returns is not a leak). Five genuine defects repaired by fix: commits 31f9756, 46f498f, 9f0231e, 0de6c00.")
+         "delays the goroutine reaching yield point b until a was reached; each run is a child process; verdicts come only from observable behaviour. Further states: the same object opened "
+         "again, a transport Close that reports an error, two concurrent Closes held at the entry of the shutdown. Reopen.tla models what one driver object carries from one session into the next "
+         "(queue, read under way, read loops, capability list, delimiter, message-ids and store, cached privilege level): the invariant Clean holds for the resets the code makes and is violated by "
+         "each of 8 alternative reset decisions; the counterexamples are replayed as reopen histories by the harnesses of C01, C03, C04, C05, C08, C09, C10 and C18.",
+    note="Trusted: TLC; the gate (15 ms bound) as scheduler; runtime.Stack census (a reader stuck in a transport Read that never returns is not a leak). Genuine defects repaired by fix: commits 31f9756, 46f498f, 9f0231e, 0de6c00, 3360717, a94e4ce, 2c64539, ac60d8f, 2ec7ac6, e610bf3.")
 CHECKS["C04"] = dict(
     category="model_checking", design_ref="DESIGN.md §5 C04, §11",
     technique="TLA+/TLC: Privilege.tla models the AcquirePriv loop (prompt, classify with cache/target/map-order rules, one step) and is checked against the tree-path contract for every rooted "
